@@ -120,6 +120,13 @@ pub fn run_async(case: &Case, prog: &Prog, plan: &Plan, exp: &Expect, sch: &ASch
     };
     let kind = prog.kind();
     let rt = tokio::runtime::Builder::new_current_thread().enable_time().build().unwrap();
+    // the future is *built* in the context of another (idle) runtime and polled on `rt`: nothing may
+    // be bound to a runtime before the first poll
+    let rt_other = tokio::runtime::Builder::new_current_thread().build().unwrap();
+    let prebuilt = {
+        let _g = rt_other.enter();
+        std::cell::RefCell::new(Some(catch_unwind(AssertUnwindSafe(|| f()))))
+    };
     let local = tokio::task::LocalSet::new();
     let loc = exp.loc.clone();
     let gated: Vec<u32> = plan.gates.clone();
@@ -148,7 +155,13 @@ pub fn run_async(case: &Case, prog: &Prog, plan: &Plan, exp: &Expect, sch: &ASch
             let waker = futures::task::waker(flag.clone());
             let mut cx = Context::from_waker(&waker);
             // ---- laziness: building the future evaluates nothing
-            let mut root = f();
+            let mut root = match prebuilt.borrow_mut().take().unwrap() {
+                Ok(r) => r,
+                Err(p) => {
+                    violations.push(viol("lazy", format!("building the macro's future panicked: {}", panic_message(&p))));
+                    return (None, Some("construction panicked".to_string()), violations, vec![], 0, 0, false);
+                }
+            };
             if what == What::Progress && log::len() != 0 {
                 violations.push(viol("lazy", format!("events before the first poll: {:?}", log::snapshot().iter().map(|e| e.short()).collect::<Vec<_>>())));
             }
@@ -240,6 +253,19 @@ pub fn run_async(case: &Case, prog: &Prog, plan: &Plan, exp: &Expect, sch: &ASch
                         }
                     }
                 }
+                // ---- panic: once the injected panic has been raised (in the root or in a task) the
+                // macro's future must panic at its next poll, not wait for pending siblings
+                if what == What::Panic {
+                    if let Some((pid, pk)) = &plan.panic_at {
+                        if log::snapshot().iter().any(|e| e.id == *pid && e.k.name() == pk) {
+                            violations.push(viol(
+                                "panic_pending",
+                                format!("the panic at {}#{} has been raised, nothing is runnable, yet the macro's future is pending and was not woken (siblings pending at {:?})", pk, pid, waiting),
+                            ));
+                            break;
+                        }
+                    }
+                }
                 if waiting.is_empty() {
                     // nothing is pending on the harness side, the root was not notified and is not ready
                     violations.push(viol(
@@ -284,6 +310,7 @@ pub fn run_async(case: &Case, prog: &Prog, plan: &Plan, exp: &Expect, sch: &ASch
     }));
     drop(local);
     drop(rt);
+    drop(rt_other);
     let events = log::snapshot();
     match res {
         Ok((outcome, panic_msg, violations, arity, polls, spurious, ooo)) => AsyncRun { outcome, panic_msg, events, violations, arity, polls, spurious, opened_out_of_order: ooo },
